@@ -694,7 +694,7 @@ class ExprMixin(Core):
         the shared uninterpreted `prog_at` (equal arguments give equal values by congruence)"""
         ss, js = z3.simplify(stp), z3.simplify(j)
         if z3.is_int_value(ss) or z3.is_int_value(js):
-            return lo + j * stp
+            return z3.simplify(lo + j * stp)
         f = self.uf("prog_at", z3.IntSort(), z3.IntSort(), z3.IntSort(), z3.IntSort())
         return f(lo, stp, j)
 
